@@ -74,8 +74,16 @@ class OneShot(object):
         return self._items[k]
 
 
-def _gen(items, ledger, fail_at, eof_at):
+def _gen(items, ledger, fail_at, eof_at, touch=None):
     for k, it in enumerate(items):
+        if touch is not None:
+            # the caller's generator reads from the very handle that is being updated
+            db, keys = touch
+            for key in keys:
+                try:
+                    db[key]
+                except Exception:
+                    pass
         if k == eof_at:
             break
         if k == fail_at:
@@ -220,7 +228,10 @@ def make_source(st, spec, led_name):
     if form == "list":
         return feats, kw
     if form == "gen":
-        return _gen(feats, led, fail_at, eof_at), kw
+        touch = None
+        if spec.get("touch"):
+            touch = (st.h[spec["touch"]["h"]], list(spec["touch"]["keys"]))
+        return _gen(feats, led, fail_at, eof_at, touch), kw
     if form == "iter1":
         return OneShot(feats, led, fail_at, eof_at), kw
     raise ValueError(form)
